@@ -213,10 +213,24 @@ impl<'a> Facts<'a> {
 fn end_state_verdict(case: &ChanCase, run: &ChanRun) -> Option<Verdict> {
     match &run.end {
         EndState::Completed => None,
+        // a send that blocks the calling thread inside an un-instrumented primitive: C16's subject ("a rejected send does not block"); the kinds
+        // documented to wait when full are kept below capacity by construction
+        EndState::Blocked { tid } => {
+            let op = run.cur_ops.get(*tid).cloned().unwrap_or_default();
+            if *tid < run.n_producers && !case.kind.waits_when_full() && op.starts_with("send") && !op.contains("send_with") {
+                Some(Verdict::Violation { signature: format!("{}/{}/blocked-instead-of-returning", case.kind.short(), op),
+                    detail: format!("thread {tid} never returned from `{op}` (no scheduling point for 8 s while it alone was allowed to run): it is blocked inside the channel instead of handing the event back; history: {}", run.render()) })
+            } else { Some(Verdict::Inconclusive("blocked-in-uninstrumented-wait".into())) }
+        },
         EndState::Budget => { if std::env::var("RMV_SHOW_BUDGET").is_ok() { eprintln!("BUDGET {} || {}", serde_json::to_string(case).unwrap_or_default(), run.render()); } Some(Verdict::Inconclusive("step-budget".into())) },
         EndState::Stall { stuck, parked } => Some(Verdict::Violation {
             signature: format!("{}/stall", case.kind.short()),
             detail: format!("no thread can make progress: threads {:?} spin on an operation nobody will ever let succeed (parked: {:?}); history: {}", stuck, parked, run.render()) }),
+        // known finding R8 (keyed under C17): a send whose fan-out overlaps the drop of a listener (which rebuilds the live-listener list) may keep
+        // feeding the dead listener's queue until it is full -- the library then panics with "BUG! This should never happen". Outside C17 such runs are set aside.
+        EndState::Panicked { msg, .. } if (case.kind.is_arc() || case.kind.is_ogre_arc()) && msg.contains("is full of elements")
+            && run.consumers.iter().any(|c| c.dropped_at.is_some() || c.ended) =>      // (the panicking send itself is not in the log: any listener drop during the run counts)
+            Some(Verdict::Inconclusive("r8-region(send-overlapped-a-listener-drop)".into())),
         EndState::Panicked { tid, msg } => Some(Verdict::Violation {
             signature: format!("{}/panic", case.kind.short()),
             detail: format!("thread {tid} panicked: {msg}; history: {}", run.render()) }),
